@@ -446,37 +446,60 @@ example : Builds (fromPrefix ['a', 'b'] ['a', 'a', 'b'] false true) ['a', 'b']
 
 /-! ## from_substring, from_suffix (Knuth–Morris–Pratt) -/
 
+/-- The early return for patterns that every word satisfies (`if not substring: …`,
+`if "" in substrings: …`): the universal language, or the empty one for the complement. -/
+private theorem builds_trivial (syms : List α) (contains : Bool) (L : List α → Prop)
+    (hL : ∀ w, L w) :
+    Builds (if contains then universalLanguage syms else emptyLanguage syms) syms
+      (fun w => L w ↔ contains = true) := by
+  cases contains with
+  | true =>
+    refine builds_of syms rfl (loopDFA_wf 0 syms true) rfl (fun w => ?_)
+    rw [loopDFA_accepts]; simp [hL w]
+  | false =>
+    refine builds_of syms rfl (loopDFA_wf 0 syms false) rfl (fun w => ?_)
+    rw [loopDFA_accepts]; simp [hL w]
+
 /-- `from_substring(Σ, p, contains)` (default `must_be_suffix=False`), for **every** pattern —
-self-overlapping ones, the empty one, patterns with symbols outside `Σ`: the KMP table is
-built without error and the result is a valid complete DFA accepting exactly the words over
-`Σ` that contain `p` as a contiguous substring (or exactly those that do not, when
+self-overlapping ones, the empty one (early return), patterns with symbols outside `Σ`: the KMP
+table is built without error and the result is a valid complete DFA accepting exactly the words
+over `Σ` that contain `p` as a contiguous substring (or exactly those that do not, when
 `contains = False`). -/
 theorem C15_from_substring (syms p : List α) (contains : Bool) :
     Builds (fromSubstring syms p contains false) syms (fun w => p <:+: w ↔ contains = true) := by
-  obtain ⟨T, hk, hT⟩ := KMP.kmpTable_ok p
-  have hsf : false = true → p ≠ [] := fun h => nomatch h
-  refine builds_of syms (KMP.fromSubstring_eq syms p T hT hk contains false hsf)
-    (KMP.kmpDFA_wf syms p T hT contains false hsf) rfl (fun w => ?_)
-  rw [KMP.kmpDFA_accepts syms p T hT contains false hsf w]
-  simp
+  by_cases hp : p = []
+  · subst hp
+    rw [KMP.fromSubstring_empty]
+    exact builds_trivial syms contains (fun w => [] <:+: w) (fun w => List.nil_infix)
+  · obtain ⟨T, hk, hT⟩ := KMP.kmpTable_ok p
+    have hsf : false = true → p ≠ [] := fun _ => hp
+    refine builds_of syms (KMP.fromSubstring_eq syms p T hT hk contains false hp)
+      (KMP.kmpDFA_wf syms p T hT contains false hsf) rfl (fun w => ?_)
+    rw [KMP.kmpDFA_accepts syms p T hT contains false hsf w]
+    simp
 
-/-- `from_suffix(Σ, p, contains)` = `from_substring(…, must_be_suffix=True)` for every
-**non-empty** pattern: a valid complete DFA accepting exactly the words over `Σ` that end with
-`p` (or exactly those that do not). -/
-theorem C15_from_suffix (syms p : List α) (hp : p ≠ []) (contains : Bool) :
+/-- `from_suffix(Σ, p, contains)` = `from_substring(…, must_be_suffix=True)` for **every**
+pattern (the empty one included, since the repair of finding F10a): a valid complete DFA
+accepting exactly the words over `Σ` that end with `p` (or exactly those that do not). -/
+theorem C15_from_suffix (syms p : List α) (contains : Bool) :
     Builds (fromSuffix syms p contains) syms (fun w => p <:+ w ↔ contains = true) ∧
     Builds (fromSubstring syms p contains true) syms (fun w => p <:+ w ↔ contains = true) := by
-  obtain ⟨T, hk, hT⟩ := KMP.kmpTable_ok p
-  have hsf : true = true → p ≠ [] := fun _ => hp
   have h : Builds (fromSubstring syms p contains true) syms (fun w => p <:+ w ↔ contains = true) := by
-    refine builds_of syms (KMP.fromSubstring_eq syms p T hT hk contains true hsf)
-      (KMP.kmpDFA_wf syms p T hT contains true hsf) rfl (fun w => ?_)
-    rw [KMP.kmpDFA_accepts syms p T hT contains true hsf w]
-    simp
+    by_cases hp : p = []
+    · subst hp
+      rw [KMP.fromSubstring_empty]
+      exact builds_trivial syms contains (fun w => [] <:+ w) (fun w => List.nil_suffix)
+    · obtain ⟨T, hk, hT⟩ := KMP.kmpTable_ok p
+      have hsf : true = true → p ≠ [] := fun _ => hp
+      refine builds_of syms (KMP.fromSubstring_eq syms p T hT hk contains true hp)
+        (KMP.kmpDFA_wf syms p T hT contains true hsf) rfl (fun w => ?_)
+      rw [KMP.kmpDFA_accepts syms p T hT contains true hsf w]
+      simp
   exact ⟨h, h⟩
 
-/-- The KMP invariant itself: in the suffix automaton the state reached on a word `w` over `Σ`
-is the length of the longest prefix of the pattern that is a suffix of `w`. -/
+/-- The KMP invariant itself: in the suffix automaton of a non-empty pattern the state reached
+on a word `w` over `Σ` is the length of the longest prefix of the pattern that is a suffix of
+`w`. -/
 theorem C15_from_suffix_state (syms p : List α) (hp : p ≠ []) (contains : Bool) :
     ∀ d, fromSuffix syms p contains = .ok d → ∀ w, Over syms w →
       ∃ k, d.run (some d.init) w = some (nat k) ∧
@@ -484,42 +507,52 @@ theorem C15_from_suffix_state (syms p : List α) (hp : p ≠ []) (contains : Boo
   intro d hd w hw
   obtain ⟨T, hk, hT⟩ := KMP.kmpTable_ok p
   have hsf : true = true → p ≠ [] := fun _ => hp
-  have hwf := wf_of_build (KMP.fromSubstring_eq syms p T hT hk contains true hsf) hd
-  rw [eq_of_build (KMP.fromSubstring_eq syms p T hT hk contains true hsf) hd]
+  have hwf := wf_of_build (KMP.fromSubstring_eq syms p T hT hk contains true hp) hd
+  rw [eq_of_build (KMP.fromSubstring_eq syms p T hT hk contains true hp) hd]
   refine ⟨w.foldl (KMP.kmpStepN p T true) 0, ?_, KMP.kmp_inv_suffix p T hT hp w⟩
   exact (KMP.kmpDFA_run syms p T hT contains true hsf 0 (Nat.zero_le _) w hw).1
 
-/-- Minimality of `from_substring` / `from_suffix` for a pattern over `Σ` (non-empty in suffix
-mode): `|p| + 1` states, all reachable and pairwise distinguishable, hence no equivalent
-complete DFA is smaller. -/
-theorem C15_from_substring_minimal (syms p : List α) (hp : ∀ c ∈ p, c ∈ syms) (contains sf : Bool)
-    (hsf : sf = true → p ≠ []) :
+/-- Minimality of `from_substring` / `from_suffix` for a pattern over `Σ` (the one-state
+automaton of the empty pattern included): `|p| + 1` states, all reachable and pairwise
+distinguishable, hence no equivalent complete DFA is smaller. -/
+theorem C15_from_substring_minimal (syms p : List α) (hp : ∀ c ∈ p, c ∈ syms) (contains sf : Bool) :
     ∀ d, fromSubstring syms p contains sf = .ok d →
       d.allowPartial = false ∧ d.states.length = p.length + 1 ∧ MinimalShape d ∧
         MinimalAmongComplete d := by
   intro d hd
-  obtain ⟨T, hk, hT⟩ := KMP.kmpTable_ok p
-  have hwf := wf_of_build (KMP.fromSubstring_eq syms p T hT hk contains sf hsf) hd
-  rw [eq_of_build (KMP.fromSubstring_eq syms p T hT hk contains sf hsf) hd]
-  have h := KMP.kmpDFA_minimal syms p T hT hp contains sf hsf
-  refine ⟨rfl, ?_, h, C15_minimal_of_shape _ hwf h⟩
-  show (akeys (KMP.kmpTrans syms p T sf)).length = _
-  unfold KMP.kmpTrans
-  rw [akeys_rangeMap]; simp
-
-/-- **Open finding F10, first half** (the property fails here; see `known_findings.json`):
-with the empty pattern, `from_suffix` raises `IndexError` over every non-empty alphabet instead
-of returning the universal-language DFA. -/
-theorem C15_from_suffix_empty_cex (a : α) (syms : List α) (contains : Bool) :
-    fromSuffix (a :: syms) [] contains = .error (.py .indexError) :=
-  KMP.fromSuffix_empty_error a syms contains
+  by_cases hpe : p = []
+  · subst hpe
+    rw [KMP.fromSubstring_empty] at hd
+    cases contains with
+    | true =>
+      have hr : universalLanguage syms = build (loopDFA 0 syms true) := rfl
+      have hwf := wf_of_build hr hd
+      rw [eq_of_build hr hd]
+      exact ⟨rfl, rfl, loopDFA_minimal 0 syms true, C15_minimal_of_shape _ hwf (loopDFA_minimal 0 syms true)⟩
+    | false =>
+      have hr : emptyLanguage syms = build (loopDFA 0 syms false) := rfl
+      have hwf := wf_of_build hr hd
+      rw [eq_of_build hr hd]
+      exact ⟨rfl, rfl, loopDFA_minimal 0 syms false, C15_minimal_of_shape _ hwf (loopDFA_minimal 0 syms false)⟩
+  · obtain ⟨T, hk, hT⟩ := KMP.kmpTable_ok p
+    have hsf : sf = true → p ≠ [] := fun _ => hpe
+    have hwf := wf_of_build (KMP.fromSubstring_eq syms p T hT hk contains sf hpe) hd
+    rw [eq_of_build (KMP.fromSubstring_eq syms p T hT hk contains sf hpe) hd]
+    have h := KMP.kmpDFA_minimal syms p T hT hp contains sf hsf
+    refine ⟨rfl, ?_, h, C15_minimal_of_shape _ hwf h⟩
+    show (akeys (KMP.kmpTrans syms p T sf)).length = _
+    unfold KMP.kmpTrans
+    rw [akeys_rangeMap]; simp
 
 example : Builds (fromSubstring ['a', 'b'] ['a', 'b', 'a', 'b'] true false) ['a', 'b']
     (fun w => ['a', 'b', 'a', 'b'] <:+: w ↔ true = true) := C15_from_substring _ _ _
 
 example : Builds (fromSuffix ['a', 'b'] ['a', 'a', 'b', 'a', 'a'] false) ['a', 'b']
     (fun w => ['a', 'a', 'b', 'a', 'a'] <:+ w ↔ false = true) :=
-  (C15_from_suffix _ _ (by decide) _).1
+  (C15_from_suffix _ _ _).1
+
+example : Builds (fromSuffix ['a', 'b'] [] true) ['a', 'b'] (fun w => [] <:+ w ↔ true = true) :=
+  (C15_from_suffix _ _ _).1
 
 /-! ## from_substrings (Aho–Corasick) and from_finite_language
 
@@ -528,8 +561,7 @@ absorbing end state unless suffix mode; `fromFiniteLanguage`: sorted insertion i
 a signature register and compression of the non-shared suffix of the previous word,
 `_to_complete` with trap `0`) are executable and tied to the code by the correspondence run.
 `from_substrings` is proved in general below; for `from_finite_language` the general theorem is
-stated in full (`…_full`) and what is proved at this stage is listed after it (`…_partial`).
-The counter-examples of the open findings are theorems too. -/
+stated in full (`…_full`) and what is proved at this stage is listed after it (`…_partial`). -/
 
 /-- The verdict of the DFA returned by a constructor call (`none` if the call raised). -/
 def verdict (r : Res (DFA σ α)) (w : List α) : Option Bool :=
@@ -545,49 +577,56 @@ def size (r : Res (DFA σ α)) : Option Nat :=
 
 /-- `from_substrings(Σ, S, contains, must_be_suffix)` (Aho–Corasick) for every duplicate-free
 alphabet, every list of patterns over it — in **every** insertion order, with patterns that are
-prefixes / suffixes / infixes of one another, with the empty pattern in substring mode — and
-both values of both flags (the empty pattern excluded in suffix mode, finding F10b): the trie,
-the failure links and the output links are built without error and the result is a valid
-complete DFA accepting exactly the words over `Σ` that contain (resp. end with) one of the
-patterns, or exactly the others when `contains = False`.  (The documentation does not promise
-minimality.)  Behind it (`Proofs/CtorAC*.lean`): the insertion loop builds a trie of the
-prefixes of the patterns (`acTrie_spec`); the first BFS sets every failure link to the node of
-the longest proper suffix in the trie and makes the output chain non-empty iff a non-empty
-suffix is a pattern (`acFailBfs_spec`, with the BFS-order invariant "everything not deeper than
-the head of the queue is linked"); the goto function leads to the node of the longest suffix
-of `x·a` in the trie (`acGoto_spec`); the state after `w` is the node of the longest suffix of
-`w` that is a prefix of a pattern (`acState_spec`), absorbing in substring mode (`acSub_inv`). -/
+prefixes / suffixes / infixes of one another, with the empty pattern (early return, the repair of
+finding F10b) — and both values of both flags: the trie, the failure links and the output links
+are built without error and the result is a valid complete DFA accepting exactly the words over
+`Σ` that contain (resp. end with) one of the patterns, or exactly the others when
+`contains = False`.  (The documentation does not promise minimality.)  Behind it
+(`Proofs/CtorAC*.lean`): the insertion loop builds a trie of the prefixes of the patterns
+(`acTrie_spec`); the first BFS sets every failure link to the node of the longest proper suffix
+in the trie and makes the output chain non-empty iff a non-empty suffix is a pattern
+(`acFailBfs_spec`, with the BFS-order invariant "everything not deeper than the head of the
+queue is linked"); the goto function leads to the node of the longest suffix of `x·a` in the
+trie (`acGoto_spec`); the state after `w` is the node of the longest suffix of `w` that is a
+prefix of a pattern (`acState_spec`), absorbing in substring mode into the fresh state
+`len(labels)` (`acSub_inv`). -/
 theorem C15_from_substrings (syms : List α) (hsyms : syms.Nodup) (pats : List (List α))
-    (contains sf : Bool) (hover : ∀ p ∈ pats, ∀ c ∈ p, c ∈ syms) (hsf : sf = true → [] ∉ pats) :
+    (contains sf : Bool) (hover : ∀ p ∈ pats, ∀ c ∈ p, c ∈ syms) :
     Builds (fromSubstrings syms pats contains sf) syms
       (fun w => (∃ p ∈ pats, if sf then p <:+ w else p <:+: w) ↔ contains = true) := by
-  obtain ⟨nodes, paths, acc, hL, hTab, he⟩ := AC.fromSubstrings_eq syms pats contains sf hsyms hover
-  cases sf with
-  | true =>
-    refine builds_of syms he (AC.acSuffix_wf syms acc hL hTab contains) rfl (fun w => ?_)
-    rw [AC.acSuffix_accepts syms acc hL hTab contains (hsf rfl) w]
-    simp
-  | false =>
-    refine builds_of syms he (AC.acSub_wf syms acc hL hTab contains) rfl (fun w => ?_)
-    rw [AC.acSub_accepts syms acc hL hTab contains w]
-    simp
+  by_cases hne : [] ∈ pats
+  · rw [AC.fromSubstrings_empty syms pats contains sf hne]
+    apply builds_trivial syms contains (fun w => ∃ p ∈ pats, if sf then p <:+ w else p <:+: w)
+    intro w
+    refine ⟨[], hne, ?_⟩
+    cases sf
+    · exact List.nil_infix
+    · exact List.nil_suffix
+  · obtain ⟨nodes, paths, acc, hL, hTab, he⟩ :=
+      AC.fromSubstrings_eq syms pats contains sf hsyms hover hne
+    cases sf with
+    | true =>
+      refine builds_of syms he (AC.acSuffix_wf syms acc hL hTab contains) rfl (fun w => ?_)
+      rw [AC.acSuffix_accepts syms acc hL hTab contains hne w]
+      simp
+    | false =>
+      refine builds_of syms he (AC.acSub_wf syms acc hL hTab contains) rfl (fun w => ?_)
+      rw [AC.acSub_accepts syms acc hL hTab contains w]
+      simp
 
 example : Builds (fromSubstrings ['a', 'b'] [['a', 'a', 'b'], ['a', 'b'], ['b', 'b']] true true) ['a', 'b']
     (fun w => (∃ p ∈ [['a', 'a', 'b'], ['a', 'b'], ['b', 'b']], if true then p <:+ w else p <:+: w) ↔
       true = true) :=
-  C15_from_substrings _ (by decide) _ _ _ (by decide) (by decide)
+  C15_from_substrings _ (by decide) _ _ _ (by decide)
 
-/-- **Open finding F10, second half**: with the empty pattern in the set and suffix mode the
-result is wrong — the complement DFA for `{"", "cab"}` accepts `"c"` although every word ends
-with the empty pattern (symbols `a, b, c` = `0, 1, 2`). -/
-theorem C15_from_substrings_empty_pattern_cex :
-    verdict (fromSubstrings [0, 1, 2] [[], [2, 0, 1]] false true) [2] = some true := by decide
-
-/-- **Open finding F20** (new): a pattern with a symbol outside the alphabet, substring mode —
-`end_state = len(transitions)` collides with the label of a trie node:
-`from_substrings({a,b}, ["cc", "ab"])` accepts `"a"`. -/
-theorem C15_from_substrings_foreign_symbol_cex :
-    verdict (fromSubstrings [0, 1] [[2, 2], [0, 1]] true false) [0] = some true := by decide
+/-- Regression witnesses of the repaired findings, evaluated on the model: with the empty
+pattern in the set (F10b) the complement DFA in suffix mode rejects `"c"`; with a pattern
+carrying a symbol outside the alphabet (F20, `["cc", "ab"]` over `{a, b}`) `"a"` is rejected
+and `"ab"` accepted (symbols `a, b, c` = `0, 1, 2`). -/
+theorem C15_from_substrings_regressions :
+    verdict (fromSubstrings [0, 1, 2] [[], [2, 0, 1]] false true) [2] = some false ∧
+    verdict (fromSubstrings [0, 1] [[2, 2], [0, 1]] true false) [0] = some false ∧
+    verdict (fromSubstrings [0, 1] [[2, 2], [0, 1]] true false) [0, 1] = some true := by decide
 
 /-- A strict total order on symbols, as a Boolean `<` (code points). -/
 structure StrictTotal (lt : α → α → Bool) : Prop where
